@@ -117,6 +117,7 @@ pub fn parse_ts(toks: &[char]) -> Result<Vec<(TS, SSpan)>, String> {
 
 impl<'a> Kind<'a> for &'a [TT] {
     const NAME: &'static str = "tree";
+    crate::build::by_ref_impl!();
     fn tree_leaf<E: ErrTy<'a, Self>>() -> Result<Boxed<'a, 'a, Self, Self, X<E>>, String> {
         Ok(select_ref! { TT::Group(xs) => xs.as_slice() }.boxed())
     }
@@ -133,6 +134,7 @@ pub fn ts_input<'a>(toks: &'a [(TS, SSpan)], eoi: SSpan) -> TsInput<'a> {
 
 impl<'a> Kind<'a> for TsInput<'a> {
     const NAME: &'static str = "treem";
+    crate::build::by_ref_impl!();
     fn tree_leaf<E: ErrTy<'a, Self>>() -> Result<Boxed<'a, 'a, Self, Self, X<E>>, String> {
         Ok(select_ref! { TS::Group(xs, eoi) => ts_input(xs.as_slice(), *eoi) }.boxed())
     }
